@@ -92,6 +92,29 @@ static int set_token(BufrDescriptor *b, char *tok){
     case 'f': { uint32_t u = (uint32_t)strtoul(tok+1,NULL,16); float f; memcpy(&f,&u,4); return bufr_descriptor_set_fvalue(b,f) < 0 ? -1 : 0; }
     case 's': { static unsigned char buf[1<<16]; int n = unhex(tok+1, buf); buf[n]=0; return bufr_descriptor_set_svalue(b,(char*)buf) < 0 ? -1 : 0; }
     case 'm': if(b->value==NULL) b->value = bufr_mkval_for_descriptor(b); return 0;
+    case 'r': {   /* intended raw (wire) value: converted here, with no library conversion function, to the value the application would set */
+      uint64_t raw = strtoull(tok+1,NULL,16);
+      int w = b->encoding.nbits; uint64_t ones = (w>=64)? ~0ULL : ((1ULL<<w)-1);
+      if(b->value==NULL) b->value = bufr_mkval_for_descriptor(b);
+      if(b->value==NULL) return -1;
+      switch(b->encoding.type){
+        case TYPE_NUMERIC: {
+          if(raw==ones && !(b->flags & FLAG_CLASS31)) return 0;            /* missing: leave the fresh value */
+          int64_t iv = (int64_t)raw + (int64_t)b->encoding.reference;
+          if(b->value->type==VALTYPE_INT32 || b->value->type==VALTYPE_INT8) return bufr_descriptor_set_ivalue(b,(int)iv) < 0 ? -1 : 0;
+          if(b->value->type==VALTYPE_INT64) return bufr_value_set_int64(b->value, iv) < 0 ? -1 : 0;
+          { int sc = b->encoding.scale; double d = (double)iv;       /* correctly rounded (raw+ref)/10^scale: operands exact below 2^53, 10^k exact for k<=22 */
+            if(sc!=0) d = d / pow(10.0, (double)sc);   /* the same arithmetic a decode of this raw value performs: (raw+ref)/10^scale */
+            if(b->value->type==VALTYPE_FLT32) return bufr_descriptor_set_fvalue(b,(float)d) < 0 ? -1 : 0;
+            return bufr_descriptor_set_dvalue(b,d) < 0 ? -1 : 0; } }
+        case TYPE_CODETABLE: case TYPE_FLAGTABLE:
+          if(raw==ones && !(b->flags & FLAG_CLASS31)) return 0;
+          if(b->value->type==VALTYPE_INT64) return bufr_value_set_int64(b->value,(int64_t)raw) < 0 ? -1 : 0;
+          return bufr_descriptor_set_ivalue(b,(int)raw) < 0 ? -1 : 0;
+        case TYPE_CHNG_REF_VAL_OP: { uint64_t half = 1ULL<<(w-1); int v = raw>=half ? -(int)(raw-half) : (int)raw; return bufr_descriptor_set_ivalue(b,v) < 0 ? -1 : 0; }
+        default: return -1;
+      }
+    }
     default: return -1;
   }
 }
@@ -113,8 +136,8 @@ static int fill_subset(BUFR_Dataset *dts, int pos, char **toks, int ntok){
     if(j >= c) break;
     BufrDescriptor *b = bufr_datasubset_get_descriptor(ss,j);
     if(has_data(b)){
-      if(k >= ntok) return -2;
-      if(set_token(b, toks[k++])) return -2;
+      if(k >= ntok){ if(getenv("VERIF_DEBUG")) fprintf(stderr,"fill: out of tokens at j=%d desc=%06d\n",j,b->descriptor); return -2; }
+      if(set_token(b, toks[k++])){ if(getenv("VERIF_DEBUG")) fprintf(stderr,"fill: set failed at j=%d desc=%06d tok=%s flags=%x\n",j,b->descriptor,toks[k-1],b->flags); return -2; }
       if((b->flags & FLAG_CLASS31) && !(b->flags & FLAG_EXPANDED)){
         /* delayed replication / repetition factor: expand now, as encode_delayed_repl.c does */
         bufr_expand_datasubset(dts,pos);
@@ -122,6 +145,7 @@ static int fill_subset(BUFR_Dataset *dts, int pos, char **toks, int ntok){
     }
     j++;
   }
+  if(k != ntok && getenv("VERIF_DEBUG")) fprintf(stderr,"fill: %d of %d tokens used\n",k,ntok);
   return (k == ntok) ? 0 : -2;
 }
 
@@ -137,6 +161,7 @@ static void do_E(char **save){
   if(!t){ printf("E rc=-1\n"); return; }
   BUFR_Dataset *dts = bufr_create_dataset(t);
   bufr_free_template(t);
+  dts->s1.year=2020; dts->s1.month=1; dts->s1.day=2; dts->s1.hour=3; dts->s1.minute=4; dts->s1.second=5;
   int rc = 0, s;
   for(s=0;s<nsub && rc==0;s++){
     char *toks[8192]; int nt=0; char *tk;
